@@ -6,11 +6,11 @@
 package snowflake_client
 
 import (
-	"io/ioutil"
 	"log"
 	"runtime"
 	"strings"
 	"sync"
+	"sync/atomic"
 	"time"
 
 	"verif/vlib"
@@ -18,10 +18,46 @@ import (
 
 var c15QuietOnce sync.Once
 
-// c15Quiet drops the package's log output (thousands of lines per second in
-// the schedule part); crash traces still reach stderr.
-func c15Quiet() {
-	c15QuietOnce.Do(func() { log.SetOutput(ioutil.Discard) })
+// c15Res is the result of the running part (for the log sink below).
+var c15Res atomic.Value // *vlib.Result
+
+// c15LogSink drops the package's log output (thousands of lines per second in
+// the schedule part; crash traces still reach stderr) and doubles as the
+// monitor for "a failed attempt never terminates the client process" by way
+// of log.Fatal*: the write of a Fatal call is the last thing that happens
+// before os.Exit(1), so the violation is recorded and saved from inside it.
+type c15LogSink struct{}
+
+func (c15LogSink) Write(p []byte) (int, error) {
+	var pcs [24]uintptr
+	n := runtime.Callers(2, pcs[:])
+	frames := runtime.CallersFrames(pcs[:n])
+	var stack []string
+	fatal := false
+	for {
+		f, more := frames.Next()
+		stack = append(stack, f.Function)
+		if strings.HasPrefix(f.Function, "log.Fatal") || strings.HasPrefix(f.Function, "log.(*Logger).Fatal") {
+			fatal = true
+		}
+		if !more {
+			break
+		}
+	}
+	if fatal {
+		if res, ok := c15Res.Load().(*vlib.Result); ok && res != nil {
+			res.Violate("c15:process-exit:log-fatal", "the code under test calls log.Fatal (os.Exit) on an error path: "+strings.TrimSpace(string(p)),
+				map[string]interface{}{"case": "log-fatal", "message": strings.TrimSpace(string(p)), "stack": stack})
+			res.Save()
+		}
+	}
+	return len(p), nil
+}
+
+// c15Quiet installs the log sink.
+func c15Quiet(res *vlib.Result) {
+	c15Res.Store(res)
+	c15QuietOnce.Do(func() { log.SetOutput(c15LogSink{}) })
 }
 
 // c15GID returns the id of the calling goroutine as printed in dumps.
